@@ -323,6 +323,11 @@ def units(tier, seed):
     add(2, 2, 1, 1, ("fatal", "retry", "dup"), split=6, wit=OTF)
     add(2, 2, 1, 2, ("fatal", "lose_req", "lose_rep"), split=6,
         wit=OTF + ("second-burst",), then_again=True)
+    # a duplicated reply while commands are still queued beyond the window:
+    # the window stays what it was
+    add(3, 1, 1, 1, ("dup",), split=5, wit=("ok",))
+    if tier == "thorough":
+        add(4, 2, 1, 1, ("dup",), split=7, wit=("ok",))
     # the sequence counter wraps inside the burst (2-bit sequence space
     # through rig's own seqs(mask)): numbers still outstanding are skipped
     add(6, 3, 2, 0, (), split=6, wit=("ok",), seq_mask=3, untimed=True)
